@@ -15,6 +15,9 @@ SPEC = {
     'C06': dict(cmd='c06bound', quick=5, thorough=7, tag='C06BOUND',
                 what='C06: every text over {" \\ / * LF CR SP a} up to N bytes through the real preprocess_str: a text the reference scan says must be accepted comes back Ok and unchanged (K3/K4 aside)',
                 label='C06.bounded.directive-free-texts-up-to-%s-bytes'),
+    'C03': dict(cmd='c03long', quick=400, thorough=20000, tag='C03LONG',
+                what='C03 / assumption A-btree: a directive-free text of N tokens (about 2N segments, many node splits of std BTreeMap under Range\'s Ord) through the real preprocess_str; every output position is probed with origin() and must map to the same offset of the same file',
+                label='C03.bounded.origin-of-every-position-of-a-%s-token-text', where='sv-parser-pp (PreprocessedText / Range under std BTreeMap)'),
     'C05': dict(cmd='c05bound', quick=5, thorough=7, tag='C05BOUND',
                 what='C05: `M(X) for M(a,b) = <a|b> and every well-nested actual-argument text X over {a , ( ) [ ] { } "..."} up to N bytes: arguments are split at the top-level commas only',
                 label='C05.bounded.actual-arguments-up-to-%s-bytes'),
@@ -58,8 +61,8 @@ def run(prop, tier, seed, **kw):
         if inp is not None and prop == 'C05':
             inp = '`define M(a,b) <a|b>\n`M(%s)\n' % inp
         res['failures'].append(dict(fn='preprocess_str', kind='bounded enumeration through the real code found failing input(s): ' + ' ; '.join(first),
-                                    label=sp['label'] % m.group(1), props=[prop], repo='sv-parser-parser (pp lexers)', spec='vreplay ' + sp['cmd'],
-                                    snippet='', notes=[], witness=dict(source='bounded enumeration through the real code', input=inp, args=['pp', inp] if inp is not None else None, observed=first)))
+                                    label=sp['label'] % m.group(1), props=[prop], repo=sp.get('where', 'sv-parser-parser (pp lexers)'), spec='vreplay ' + sp['cmd'],
+                                    snippet='', notes=[], witness=dict(source='bounded enumeration through the real code', input=inp, args=(['pp', inp] if inp is not None else [sp['cmd'], str(n)]), observed=first)))
         res['status'] = 'fail'
         res['errors'] = 1
     res['wall_s'] = time.time() - t0
